@@ -87,7 +87,16 @@ fn item_matches(item: &Item, sel: &Selector) -> bool {
         ("impl", Item::Impl(i)) => {
             let ty = type_last_ident(&i.self_ty);
             let tr = i.trait_.as_ref().map(|(_, p, _)| path_last_ident(p));
-            ty == sel.name && tr == sel.trait_name
+            // the selector may name the trait with its generic arguments (`impl From<NonEmptyVec<T>> for Vec`)
+            let tr_full = i.trait_.as_ref().map(|(_, p, _)| {
+                let seg = p.segments.last().unwrap();
+                match &seg.arguments {
+                    syn::PathArguments::None => seg.ident.to_string(),
+                    a => format!("{}{}", seg.ident, norm(&a.to_token_stream())),
+                }
+            });
+            let want = sel.trait_name.as_ref().map(|t| t.replace(' ', ""));
+            ty == sel.name && (tr == sel.trait_name || (want.is_some() && want.as_ref().map(|w| w.contains('<')).unwrap_or(false) && tr_full.map(|t| t.replace(' ', "")) == want))
         }
         _ => false,
     }
@@ -382,6 +391,18 @@ impl<'a> VisitMut for Rules<'a> {
                 self.log.push(json!({"rule":"R9","file":self.file,"line":Self::line(f.for_token.span),
                     "what":format!("in {}: `for .. in {}` written as `for .. in {}.{}()` (std's IntoIterator impl for references to collections)", self.cur_fn, pat, pat, m)}));
                 f.expr = Box::new(parse_quote!(#inner.#m()));
+                // consuming iteration over a collection of Copy elements: iterate by reference and copy each element
+                if fi["copy"].as_bool().unwrap_or(false) {
+                    if let Pat::Ident(pi) = &*f.pat {
+                        let x = pi.ident.clone();
+                        let xr = syn::Ident::new(&format!("{}_ref", x), Span::call_site());
+                        self.log.push(json!({"rule":"R9","file":self.file,"line":Self::line(x.span()),
+                            "what":format!("in {}: consuming `for {} in {}` over Copy elements written as `for {} in {}.iter() {{ let {} = *{}; .. }}`", self.cur_fn, x, pat, xr, pat, x, xr)}));
+                        f.pat = Box::new(parse_quote!(#xr));
+                        let st: Stmt = parse_quote!(let #x = *#xr;);
+                        f.body.stmts.insert(0, st);
+                    }
+                }
                 break;
             }
         }
